@@ -64,8 +64,8 @@ CLAIMED = {
     ),
     "C13": dict(
         category="proof",
-        text="Trace contracts on VideoReader.run and LabelsReader.run with every frame read declared 'may raise': on every path (normal completion, a read failure at any index) the sequence of queue puts is frame(start), ..., frame(start+k-1), END-MARKER with each frame carrying its own frame index, video index, source position and original size, exactly one marker, last; k equals the whole range when nothing failed and the failing position otherwise -- for all ranges (incl. empty), frame counts and frame sizes, by loop invariant over a ghost put-trace.",
-        note="ASSUMED: queue.Queue is a linearizable blocking FIFO (put appends to the trace; a blocked put resumes after a get). Under that contract every producer/consumer interleaving and queue capacity yields this same put sequence; the schedules themselves are NOT explored. Not decided: the consumer loop of Predictor._predict_generator (batching in order, partial last batch, exit at the marker, join) and LabelsReader with instances_key=True; termination of the bounded range loop is by construction of range(), not a discharged obligation.",
+        text="Trace contracts on VideoReader.run and LabelsReader.run with every frame read declared 'may raise': on every path (normal completion, a read failure at any index) the sequence of queue puts is frame(start), ..., frame(start+k-1), END-MARKER with each frame carrying its own frame index, video index, source position and original size, exactly one marker, last; k equals the whole range when nothing failed and the failing position otherwise -- for all ranges (incl. empty), frame counts and frame sizes, by loop invariant over a ghost put-trace. BOUNDED part: the consumer loop Predictor._predict_generator driven by a frame source that delivers 0..4 frames and then the end marker, batch sizes 1..3 (frame contents, sizes, indices symbolic): frames are consumed in order and grouped into consecutive batches of batch_size (the last one partial), each batch carries frame_idx / video_idx / eff_scale / image of exactly its own frames in order, nothing is read after the marker, the pipeline is started once and joined once.",
+        note="ASSUMED: queue.Queue is a linearizable blocking FIFO (put appends to the trace; a blocked put resumes after a get). Under that contract every producer/consumer interleaving and queue capacity yields this same put sequence; the schedules themselves are NOT explored. Not decided: the consumer loop beyond the bounded frame counts, with preprocess=True / instances_key=True / size matching to a larger canvas; LabelsReader with instances_key=True; termination of the bounded range loop is by construction of range(), not a discharged obligation.",
         technique="contract-based deductive verification: loop invariant over a ghost trace, exceptional paths through try/except/finally, VCs discharged by z3",
         design="3/C13",
     ),
@@ -100,7 +100,7 @@ CLAIMED = {
     "C12": dict(
         category="proof",
         text="Relational (two-run) contracts, all batch sizes symbolic: the real function is executed on batch A and on batch B where sample b of B is sample a of A and all other samples of B (and the batch size) are arbitrary; proved: find_global_peaks_rough / find_global_peaks, SingleInstanceInferenceModel.forward and FindInstancePeaks.forward (both stride variants) report for that sample exactly the same points, values (and crop bounding box), and each run's output carries the frame_idx / video_idx (/centroid) tensors of its own batch unchanged. For find_local_peaks_rough / find_local_peaks the per-sample functional characterisation is proved instead: the rows are exactly the strict local maxima above threshold, each once, in increasing (sample,row,column,channel) order with their own sample/channel index -- so a sample's rows are a function of that sample's maps alone and empty samples contribute no rows without shifting the others. BOUNDED part: CentroidCrop.forward (return_crops=False) for a batch of 2 frames with 0..2(3) centroids each and max_instances in {None,1,2} (detector abstracted to its C06 characterisation; points, values, scales symbolic): each frame's rows are its OWN centroids scaled by its own eff_scale followed by NaN padding, none twice, and with max_instances set the kept ones are the highest-scoring; integral refinement of find_global_peaks relationally for a frame alone vs. one of two samples (1 channel, patch 3/5).",
-        note="ASSUMED: the network maps each sample independently of its batch-mates in eval mode (ghost TableNet); torch.max/argmax return the first maximal index (torch documentation). Not decided: CentroidCrop with return_crops=True (_generate_crops: crops carrying the indices of their frame, skipped all-NaN samples) and use_gt_centroids, PAFScorer batch glue (BottomUpInferenceModel's per-sample split is decided under C03), _predict_generator metadata alignment.",
+        note="ASSUMED: the network maps each sample independently of its batch-mates in eval mode (ghost TableNet); torch.max/argmax return the first maximal index (torch documentation). Not decided: CentroidCrop with return_crops=True (_generate_crops: crops carrying the indices of their frame, skipped all-NaN samples) and use_gt_centroids, PAFScorer batch glue (BottomUpInferenceModel's per-sample split is decided under C03); _predict_generator metadata alignment is decided for bounded frame counts (consumer-loop contract shared with C13).",
         technique="contract-based deductive verification: relational two-run symbolic execution of the real Python source, VCs discharged by z3 (cvc5 for unknowns)",
         design="3/C12",
     ),
